@@ -197,6 +197,18 @@ func createDefault(sch Node) datanode.DataNode {
 
 	var children []datanode.DataNode
 	for _, ch := range sch.DefaultChildren() {
+		inChoice := false
+		for _, chs := range sch.Choices() {
+			if chs.Child(ch.Name()) != nil {
+				inChoice = true
+			}
+		}
+		// Nothing is configured below a node we are creating, so of the
+		// nodes in a choice only those of its default case are defaults.
+		if inChoice && !IsActiveDefault(sch, ch.Name(),
+			func(Node) bool { return false }) {
+			continue
+		}
 		children = append(children, createDefault(ch))
 	}
 
